@@ -66,9 +66,13 @@ def check_validator(fx, rep, b):
     if not oks:
         return
     okn, okps = oks[0]
-    env = T.env_at(okps, okn, mutated)
-    tgt_local = F.local_of(okn["args"][0])
-    tgt = T.term(okn["args"][0], env, mutated)
+    T.LET_ELSE_PROJECTIONS[0] = True  # `let KnownData { value, .. } = folded.data() else { return Err(..) }`
+    try:
+        env = T.env_at(okps, okn, mutated)
+        tgt_local = F.local_of(okn["args"][0])
+        tgt = T.term(okn["args"][0], env, mutated)
+    finally:
+        T.LET_ELSE_PROJECTIONS[0] = False
     # a conversion moved into a helper function of the same module is read through
     mod_prefix = b["def"].rsplit("::", 1)[0] + "::"
     tgt = T.inline_calls(tgt, fx, only=lambda nm: nm.startswith(mod_prefix) and nm != b["def"])
